@@ -96,6 +96,11 @@ pub fn boot_for(base_seed: u64, index: u64, rng: &mut Rng, roots: &[Model]) -> B
             let j = (index / 8) * 4 + (index % 8);
             let offset = mix(&[base_seed, 0xB007]) % 921_600;
             let p = (j.wrapping_mul(7919) + offset) % 921_600;
+            // one start boot in 32 uses equal indices (plain Chess960), one in 128 the standard position
+            if j % 32 == 5 {
+                let n = if j % 128 == 5 { 518 } else { (p % 960) as u32 };
+                return Boot::Start(n, n);
+            }
             Boot::Start((p % 960) as u32, (p / 960) as u32)
         }
         4 if line_for(index).is_some() => Boot::Start(518, 518),
